@@ -5,12 +5,12 @@
 # Writes /verif/seeded/<ID>/{patch.diff,demo/...,confirm.log}; prints a one-line summary.
 # Second-round seeds: SEED_ROUND=b tools/confirm_seed.sh C07 ... uses /tmp/wt-seed2-C07, /tmp/seed-C07b and /verif/seeded/C07b.
 ID=$1; RUN=$2; PKG=$3; WT=/tmp/wt-seed-$ID; S=/tmp/seed-$ID; OUT=/verif/seeded/$ID
-if [ -n "$SEED_ROUND" ]; then WT=/tmp/wt-seed2-$ID; [ "$SEED_ROUND" = c ] && WT=/tmp/wt-seed3-$ID; [ "$SEED_ROUND" = d ] && WT=/tmp/wt-seed4-$ID; [ "$SEED_ROUND" = e ] && WT=/tmp/wt-seed5-$ID; [ "$SEED_ROUND" = f ] && WT=/tmp/wt-seed6-$ID; S=/tmp/seed-$ID$SEED_ROUND; OUT=/verif/seeded/$ID$SEED_ROUND; fi
+if [ -n "$SEED_ROUND" ]; then WT=/tmp/wt-seed2-$ID; [ "$SEED_ROUND" = c ] && WT=/tmp/wt-seed3-$ID; [ "$SEED_ROUND" = d ] && WT=/tmp/wt-seed4-$ID; [ "$SEED_ROUND" = e ] && WT=/tmp/wt-seed5-$ID; [ "$SEED_ROUND" = f ] && WT=/tmp/wt-seed6-$ID; [ "$SEED_ROUND" = g ] && WT=/tmp/wt-seed7-$ID; S=/tmp/seed-$ID$SEED_ROUND; OUT=/verif/seeded/$ID$SEED_ROUND; fi
 export GOFLAGS=-mod=mod GOPROXY=off GOSUMDB=off GOTOOLCHAIN=local
 mkdir -p $OUT; cp $S/patch.diff $OUT/patch.diff; rm -rf $OUT/demo; cp -r $S/demo $OUT/demo; cp $S/notes.md $OUT/notes.md 2>/dev/null
 LOG=$OUT/confirm.log; : > $LOG
 cd $WT || exit 2
-git checkout -q -- . ; git clean -fdq
+git reset -q; git checkout -q -- . ; git clean -fdq
 git apply $OUT/patch.diff || { echo "PATCH DOES NOT APPLY" | tee -a $LOG; exit 2; }
 go build ./... >> $LOG 2>&1 && echo "build: ok" >> $LOG || { echo "build: FAILED" | tee -a $LOG; exit 2; }
 (cd $OUT/demo && find . -type f) | while read f; do mkdir -p $WT/$(dirname $f); cp $OUT/demo/$f $WT/$f; done
